@@ -10,7 +10,7 @@ for id in $IDS; do
   for d in seeded/$id/*/; do
     m=$(basename "$d"); tot=$((tot+1))
     also=$(python3 -c "import json,re,sys;print(' '.join(sorted(set(re.findall(r'\bC\d\d\b', json.load(open('$d/meta.json')).get('detected_by',''))) - {'$id'})))" 2>/dev/null)
-    out=$(tools/try_seed.sh "$d/patch.diff" quick $id $also 2>&1)
+    out=$(tools/try_seed.sh "/verif/${d}patch.diff" quick $id $also 2>&1)
     own=$(echo "$out" | grep -c "^== $id quick rc=1")
     any=$(echo "$out" | grep -E "^== C[0-9]+ quick rc=1" | awk '{print $2}' | tr '\n' ' ')
     if [ -n "$any" ]; then
